@@ -97,11 +97,11 @@ theorem restP_tidy {b : Bool} {ts : List T} {ps : List Piece} (h : RestP b ts ps
     intro r hr
     have h3 : goodAtom [','] = true := by decide
     have := layP_tidy hl false (_ ++ r) (ih r hr)
-    simpa [tidyPs, h3] using this
+    simpa [tidyPs, okAtom, h3] using this
   | consBrk k hl _ ih =>
     intro r hr
     have := layP_tidy hl false (_ ++ r) (ih r hr)
-    simpa [tidyPs] using this
+    simpa [tidyPs, okAtom] using this
 
 theorem seqP_tidy {ts : List T} {ps : List Piece} (h : SeqP ts ps) (b : Bool) : tidyPs b ps = true := by
   obtain ⟨_, t, ts', p1, rest, _, rfl, hl, hrest⟩ := h
@@ -112,8 +112,8 @@ theorem seqP_tidy {ts : List T} {ps : List Piece} (h : SeqP ts ps) (b : Bool) : 
 theorem restP_nulFree {b : Bool} {ts : List T} {ps : List Piece} (h : RestP b ts ps) : nulFree ps = true := by
   induction h with
   | nil => rfl
-  | consFlat hl _ ih => simp [nulFree, nulFree_append, layP_nulFree hl, ih]
-  | consBrk k hl _ ih => simp [nulFree, nulFree_append, layP_nulFree hl, ih]
+  | consFlat hl _ ih => simp only [nulFree, nulFree_append, layP_nulFree hl, ih, nulAtom_comma, Bool.and_self]
+  | consBrk k hl _ ih => simp only [nulFree, nulFree_append, layP_nulFree hl, ih, Bool.and_self]
 
 theorem seqP_nulFree {ts : List T} {ps : List Piece} (h : SeqP ts ps) : nulFree ps = true := by
   obtain ⟨_, t, ts', p1, rest, _, rfl, hl, hrest⟩ := h
